@@ -59,6 +59,7 @@ let parse_event (line : string) : parsed =
   | "EV" :: "Ret" :: k :: rest ->
     (match parse_op rest with Some o -> Ev (ERet (n (i_ k), o)) | None -> Special line)
   | "EV" :: ["ParentCancel"] -> Ev EParentCancel
+  | "EV" :: ["RunEnter"] -> Ev ERunEnter
   | "EV" :: "RunReturn" :: ["nil"] -> Ev (ERunReturn ResNil)
   | "EV" :: "RunReturn" :: ["timeout"] -> Ev (ERunReturn ResTimeout)
   | "EV" :: "RunReturn" :: "err" :: [id] -> Ev (ERunReturn (ResErr (n (i_ id))))
@@ -138,7 +139,7 @@ let () =
                   let q = quiescent cfg st in
                   let en = List.filter (fun l -> step0 cfg st l <> None) (taus_nt cfg st @ autos cfg st) in
                   let nm (l : label) = match l with
-                    | LLaunch _ -> "Launch" | LGateDecide _ -> "GateDecide" | LGateErr _ -> "GateErr" | LGateCtx _ -> "GateCtx"
+                    | LRunEntered -> "RunEntered" | LLaunch _ -> "Launch" | LGateDecide _ -> "GateDecide" | LGateErr _ -> "GateErr" | LGateCtx _ -> "GateCtx"
                     | LReapErr -> "ReapErr" | LReapCtx -> "ReapCtx" | LReapSig -> "ReapSig" | LMainShutdown -> "MainShutdown"
                     | LErrSend _ -> "ErrSend" | LSdCancel -> "SdCancel" | LSdWgDone -> "SdWgDone" | LRmAccept _ -> "RmAccept"
                     | LRmCtx -> "RmCtx" | LRmExit -> "RmExit" | LSdmExit -> "SdmExit" | LStmExit -> "StmExit"
